@@ -583,14 +583,25 @@ size_t varintAdaptiveReadMeta(const uint8_t *src, varintAdaptiveMeta *meta) {
     }
 
     case VARINT_ADAPTIVE_PFOR: {
-        varintPFORReadMeta(data, &meta->encodingMeta.pforMeta);
-        meta->originalCount = meta->encodingMeta.pforMeta.count;
-        meta->encodedSize = varintPFORSize(&meta->encodingMeta.pforMeta) + 1;
+        const varintPFORMeta *pm = &meta->encodingMeta.pforMeta;
+        const uint8_t *p = data;
+        p += varintPFORReadMeta(data, &meta->encodingMeta.pforMeta);
+        meta->originalCount = pm->count;
+        /* varintPFORSize() is a worst-case estimate once there are
+         * exceptions; walk the exception list for the bytes present */
+        p += (size_t)pm->count * pm->width;
+        p += varintTaggedGetLen(p); /* exception count */
+        for (uint32_t i = 0; i < pm->exceptionCount; i++) {
+            p += varintTaggedGetLen(p); /* index */
+            p += varintTaggedGetLen(p); /* value */
+        }
+        meta->encodedSize = (size_t)(p - data) + 1;
         break;
     }
 
     default:
-        /* Other encodings don't have easily extractable metadata */
+        /* DELTA and TAGGED do not store a count, DICT and BITMAP are not
+         * inspected: reported as unknown (see varintAdaptive.h) */
         meta->originalCount = 0;
         meta->encodedSize = 1; /* At least header byte */
         break;
